@@ -33,7 +33,10 @@ MANIFEST = dict(
          "|x| >= 1, sqrt(sqr x) = x and sqr(sqrt x) = x for x >= 0, cbrt(x^3) = x for x <> 0 over "
          "the reals (stdlib real-number axioms), and for the hand-ported _mixed_unit_list: the parts add up to the "
          "value, there is one part per unit and all but the last are whole multiples of their unit, for arbitrary unit lists "
-         "(C23_mixed_sum, C23_mixed_whole) and for unit_list with its unique/sort-descending cleaning (C23_unit_list). NOT proved "
+         "(C23_mixed_sum, C23_mixed_whole), for positive unit sizes and a value >= 0 every step leaves 0 <= remainder < unit "
+         "and all parts are >= 0 (C23_mixed_positive), and for unit_list with its unique/sort-descending cleaning "
+         "(C23_unit_list); the aliases celsius/fahrenheit equal °C/°F (C23_temperature_aliases); a hand port of "
+         "reverse is an involution (C23_reverse). NOT proved "
          "(oracle/correspondence only): floating-point behaviour (tolerances), the FFI pairs sin/asin, cos/acos, "
          "tan/atan, sinh/asinh, cosh/acosh, tanh/atanh, exp/ln, log10, log2, "
          "the jiff calendar behind DateTime; the FFI pairs are oracle-only by nature (libm).",
